@@ -89,6 +89,10 @@ func DefaultStringType() *stringType {
 
 func NewStringType(rng *IntegerType, s string) px.Type {
 	if s == `` {
+		if rng != nil && rng.min < 0 {
+			// a length is never negative
+			rng = NewIntegerType(0, rng.max)
+		}
 		if rng == nil || *rng == *IntegerTypePositive {
 			return DefaultStringType()
 		}
